@@ -3,10 +3,12 @@ package mempool
 import (
 	"fmt"
 	"os"
+	"strings"
 	"sort"
 	"sync"
 	"time"
 
+	"verif/harness/internal/tla"
 	"verif/harness/internal/tlc"
 	"verif/harness/internal/vrun"
 )
@@ -37,9 +39,12 @@ func Explore(ctx *vrun.Ctx, u *Universe, coverage, withMining bool) (*Model, *tl
 		cfgTail += "PROPERTY RejectedUnchanged\n"
 	}
 	tlaText, cfgText := u.Module(mod, base, c, defs, cfgTail)
+	// A scripted universe is a single deterministic schedule: its graph is rebuilt from the
+	// state records TLC prints (dumping hundred-transaction states as dot labels is slow).
+	scripted := len(u.Scripted) > 0
 	res, err := tlc.Run(tlc.Opts{SpecDir: ctx.SpecDir("mempool"), Module: mod, CfgText: cfgText,
 		Files: map[string][]byte{mod + ".tla": []byte(tlaText)}, Workers: 2, Timeout: 25 * time.Minute,
-		DumpGraph: true, Coverage: coverage, Scratch: keepScratch(ctx), HeapGB: 4, KeepDir: os.Getenv("VERIF_KEEPTLC") != ""})
+		DumpGraph: !scripted, Coverage: coverage, Scratch: keepScratch(ctx), HeapGB: 4, KeepDir: os.Getenv("VERIF_KEEPTLC") != ""})
 	if res != nil && os.Getenv("VERIF_KEEPTLC") != "" {
 		ctx.Logf("universe %s: TLC directory %s", u.Name, res.Dir)
 	}
@@ -48,6 +53,11 @@ func Explore(ctx *vrun.Ctx, u *Universe, coverage, withMining bool) (*Model, *tl
 	}
 	if !res.OK {
 		return nil, res, fmt.Errorf("universe %s: the specification itself violates %s %s (not a verdict about the code):\n%s", u.Name, res.ErrKind, res.ErrName, tail(res.Output, 3000))
+	}
+	if scripted {
+		if res.Graph, err = scriptedGraph(u, res.Output); err != nil {
+			return nil, res, err
+		}
 	}
 	m, err := BuildModel(u, c, res)
 	if err != nil {
@@ -89,7 +99,11 @@ func universesFor(ctx *vrun.Ctx, mining bool) []*Universe {
 	}
 	rng := ctx.Rand("universes")
 	for i := 0; i < n; i++ {
-		us = append(us, RandomUniverse(rng, fmt.Sprintf("rand%d_%d", ctx.Seed, i)))
+		size := 4
+		if ctx.Thorough && i%3 == 2 {
+			size = 5
+		}
+		us = append(us, RandomUniverse(rng, fmt.Sprintf("rand%d_%d", ctx.Seed, i), size))
 	}
 	return us
 }
@@ -263,6 +277,65 @@ func runBoth(ctx *vrun.Ctx, mining bool) error {
 	ctx.Assume("transactions are anyone-can-spend scripts; signature checking itself is covered by C06/C07")
 	ctx.Assume("blocks mined during a replay carry no witness transactions (their coinbase is fixed in advance); witness transactions are pooled and appear in templates")
 	return nil
+}
+
+// scriptedGraph rebuilds the (linear) state graph of a scripted universe from
+// the state records of EmitExp: the state with step = k is followed by the
+// state with step = k+1 through the k+1-th call of the script.
+func scriptedGraph(u *Universe, out string) (*tlc.Graph, error) {
+	byStep := map[int]tla.Value{}
+	const marker = `"<<424242,`
+	for _, line := range strings.Split(out, "\n") {
+		line = strings.TrimSpace(line)
+		if !strings.HasPrefix(line, marker) || !strings.HasSuffix(line, `"`) {
+			continue
+		}
+		v, err := tla.ParseValue(line[1 : len(line)-1])
+		if err != nil {
+			return nil, err
+		}
+		rec := v.Seq()[1]
+		k := rec.F("step").Int()
+		if _, dup := byStep[k]; dup {
+			return nil, fmt.Errorf("universe %s: the script is not deterministic at step %d", u.Name, k)
+		}
+		byStep[k] = rec
+	}
+	var sb strings.Builder
+	sb.WriteString("strict digraph DiskGraph {\n")
+	for k := 0; ; k++ {
+		rec, ok := byStep[k]
+		if !ok {
+			if k != len(byStep) {
+				return nil, fmt.Errorf("universe %s: missing state for step %d", u.Name, k)
+			}
+			break
+		}
+		var lab []string
+		for _, f := range rec.Domain() {
+			lab = append(lab, fmt.Sprintf("/\\\\ %s = %s", f.S, rec.F(f.S).String()))
+		}
+		style := ""
+		if k == 0 {
+			style = ",style = filled"
+		}
+		fmt.Fprintf(&sb, "%d [label=\"%s\"%s]\n", k+1, strings.Join(lab, "\\n"), style)
+		if k > 0 {
+			call := u.Scripted[k-1]
+			var l string
+			switch call[0] {
+			case 1:
+				l = fmt.Sprintf("ProcessTx(%d,TRUE)", call[1])
+			case 2:
+				l = fmt.Sprintf("CheckAccept(%d)", call[1])
+			case 3:
+				l = fmt.Sprintf("RemoveTx(%d,TRUE)", call[1])
+			}
+			fmt.Fprintf(&sb, "%d -> %d [label=\"%s\",color=\"black\",fontcolor=\"black\"];\n", k, k+1, l)
+		}
+	}
+	sb.WriteString("}\n")
+	return tlc.ParseDot(strings.NewReader(sb.String()))
 }
 
 // keepScratch: VERIF_KEEPTLC=<dir> keeps the generated modules and TLC output there (debugging).
